@@ -108,6 +108,8 @@ pub fn check_cli(c: &CliCase) -> CheckResult {
     use crate::cli::{self, In, Sandbox};
     let id = super::c13::ids(); let sb = Sandbox::new(); let p = c.plain.bytes();
     sb.write("keys.txt", cli::keyring_text(&[(&id.alice, true), (&id.bob, true)]).as_bytes()); sb.write("p.bin", &p);
+    // every other case: longer files are already sitting at the two output paths (a re-run over old results)
+    let stale = c.plain.seed % 2 == 0; if stale { sb.write("c.ktl", &gen::bytes_from(1, p.len() + 900)); sb.write("out.bin", &gen::bytes_from(2, p.len() + 300)); }
     let mut a = vec!["encrypt"]; if c.enc_pipe.is_none() { a.push("p.bin"); } a.extend(["-t", "bob", "-f", "alice", "-k", "keys.txt", "--env-pass"]); if !c.enc_stdout { a.extend(["-o", "c.ktl"]); }
     let mut cmd = sb.cmd(&a).env("KESTREL_PASSWORD", &id.alice.password); if let Some(sz) = &c.enc_pipe { cmd = cmd.stdin(In::Pipe(p.clone(), pieces(sz, p.len()))); }
     let r = cmd.run(); ensure!(r.code == Some(0), "kestrel encrypt failed: {}", r.describe());
